@@ -406,7 +406,38 @@ fn names(ctx: &mut Ctx) {
     }
 }
 
+/// every Unicode scalar value as the first and as the second character of a function name
+fn every_character(ctx: &mut Ctx) {
+    ctx.align();
+    let log = Arc::new(Log::default());
+    for cp in 0u32..0x11_0000 {
+        let Some(c) = char::from_u32(cp) else { continue };
+        if !ctx.mine() {
+            continue;
+        }
+        for name in [c.to_string(), format!("x{c}")] {
+            let want = acceptable_function_name(&name);
+            ctx.count();
+            let st = leak(&name);
+            let got = guard(|| ruleset().with_function(tfn(st, &log)).map(|_| ()));
+            let block = |c: char| -> &'static str {
+                if c.is_ascii() { "ascii" } else if c.is_alphabetic() { "alphabetic" } else if c.is_numeric() { "numeric" } else if c.is_whitespace() { "whitespace" } else if c.is_control() { "control" } else { "other" }
+            };
+            let pos = if name.chars().count() == 1 { "first" } else { "second" };
+            match (want, got) {
+                (true, Ok(Ok(()))) => ctx.hit("every-character:accepted"),
+                (false, Ok(Err(Error::InvalidFunctionName(n)))) if n == name => ctx.hit("every-character:refused"),
+                (_, Err(p)) => ctx.violation(format!("C15 builder-panicked with_function ({} {pos} character)", block(c)), p, json!({"name": name, "code_point": format!("U+{cp:04X}")})),
+                (true, Ok(Err(e))) => ctx.violation(format!("C15 well-formed-name-refused ({} {pos} character)", block(c)), format!("{name:?} (U+{cp:04X}): {e}"), json!({"name": name, "code_point": format!("U+{cp:04X}")})),
+                (false, Ok(Ok(()))) => ctx.violation(format!("C15 ill-formed-name-accepted ({} {pos} character)", block(c)), format!("function name {name:?} (U+{cp:04X}) was accepted"), json!({"name": name, "code_point": format!("U+{cp:04X}")})),
+                (false, Ok(Err(e))) => ctx.violation("C15 wrong-refusal (with_function)".to_string(), format!("{name:?}: {e}"), json!({"name": name})),
+            }
+        }
+    }
+}
+
 fn run(ctx: &mut Ctx) {
+    every_character(ctx);
     let alpha = alphabet();
     let probe_fns = ["f", "g", "h", "F"];
     let probe_syms = ["s", "t", "S"];
@@ -547,6 +578,7 @@ fn finish(m: &Merged, tier: Tier) -> Finish {
     for k in ["probe:function-present", "probe:function-absent", "probe:symbol-present", "probe:symbol-absent"] {
         f.floors.push(floor(format!("{k}: {}", m.c(k)), m.c(k) >= 1_000));
     }
+    f.floors.push(floor(format!("names made of every Unicode scalar value as first / second character: {} accepted, {} refused", m.c("every-character:accepted"), m.c("every-character:refused")), m.c("every-character:accepted") + m.c("every-character:refused") >= 2_200_000));
     f.extras.insert("families".into(), json!(m.prefix_map("family:")));
     f.extras.insert("names".into(), json!(m.prefix_map("names:")));
     f.extras.insert("probes".into(), json!(m.prefix_map("probe:")));
